@@ -62,9 +62,10 @@ def classify(F, f, l):
         k = u['k']
         if k == 'arg' and u['whole']:
             cal = u['call'].callee or u['call'].resolved
-            if cal.endswith(ADAPTORS):
+            is_result_method = 'result::Result::<' in cal and u['i'] == 0
+            if cal.endswith(ADAPTORS) and (is_result_method or not cal.startswith(('std::option::Option', 'core::option::Option'))):
                 proper.append(short(cal))
-            elif cal.endswith(SWALLOW):
+            elif cal.endswith(SWALLOW) and (is_result_method or cal.endswith(('mem::drop', '::into_iter', '::iter'))):
                 bad.append(('swallow', short(cal), u['call']))
             else:
                 # passed by value to some other function: accepted when that function returns a storage Result itself
@@ -94,8 +95,18 @@ def classify(F, f, l):
         elif k == 'drop':
             pass
     if discr_read:
-        # match form: on the Err arm only error returns may be reachable
+        # match form: on the Err arm only error returns may be reachable.  Only the first test of the discriminant
+        # counts: later re-reads (drop elaboration, nested patterns) are dominated by it and their "other" edge is infeasible
+        tests = []
         for b in f.live_blocks():
+            sw = paths.switch_at(f, b)
+            if sw is None or sw['discr']['k'] not in ('copy', 'move'):
+                continue
+            for dd in f.defs().get(sw['discr']['place']['l'], []):
+                if dd[0] == 'assign' and dd[3]['k'] == 'discr' and dd[3]['place']['l'] == l and not dd[3]['place']['p']:
+                    tests.append(b)
+        first = [b for b in tests if not any(b2 != b and f.dominates(b2, b) for b2 in tests)]
+        for b in first:
             sw = paths.switch_at(f, b)
             if sw is None:
                 continue
